@@ -105,6 +105,16 @@ fn ran(k: u32, ok: bool) {
     if sh.ucs.iter().any(|u| !u.guards.is_empty()) {
         sim().probe("closure_ran_while_some_cs_active");
     }
+    let (chain, shape) = (sh.closures[k as usize].chain, sh.closures[k as usize].shape);
+    if chain > 0 {
+        // re-entrant use from inside collection
+        sim().probe("closure_deferred_from_inside_collection");
+        let me = crate::sched::my_tid();
+        let g = circ::cs();
+        defer_shape_inner(me, &g, (shape as usize + 3) % NSHAPES, chain - 1);
+        g.flush();
+        drop(g);
+    }
 }
 
 fn defer_cap<A: Copy + 'static, const N: usize>(g: &Guard, k: u32) {
@@ -118,10 +128,21 @@ fn defer_cap<A: Copy + 'static, const N: usize>(g: &Guard, k: u32) {
     }
 }
 
+/// `chain` > 0: when the function runs (inside somebody's collection) it pins, defers a child
+/// with chain - 1 and flushes — garbage produced by garbage, sealed in the middle of a collect
+/// loop.
+pub fn defer_shape_chain(tid: usize, g: &Guard, shape: usize, chain: u32) {
+    defer_shape_inner(tid, g, shape, chain)
+}
+
 pub fn defer_shape(tid: usize, g: &Guard, shape: usize) {
+    defer_shape_inner(tid, g, shape, 0)
+}
+
+fn defer_shape_inner(tid: usize, g: &Guard, shape: usize, chain: u32) {
     let sh = shadow();
     let k = sh.closures.len() as u32;
-    sh.closures.push(Closure { defer_seq: sim().seq, tid, executed: 0, unprotected: false, captured_drops: 0 });
+    sh.closures.push(Closure { defer_seq: sim().seq, tid, executed: 0, unprotected: false, captured_drops: 0, chain, shape: shape as u32 });
     match shape % NSHAPES {
         0 => defer_cap::<u8, 0>(g, k),
         1 => defer_cap::<u64, 4>(g, k),
